@@ -421,3 +421,42 @@ func ruleEffect(r *Report) {
 		r.Note("DiskKeyIndex.findAt writes offsetCache unsynchronised; the property covers the default index loaders only")
 	}
 }
+
+// R-db-index-thread-safe (C18, C05, C01): GetBytes reads the tables under the *shared* database lock, so several Gets are
+// inside one table reader at a time. That is sound for the in-memory index kinds, whose lookups write nothing (E-EFFECT
+// above); the disk index keeps an unsynchronised offset cache (a plain map). So the table readers SimpleDB opens must
+// not be configured with it.
+func ruleDBIndexThreadSafe(r *Report) {
+	const rule = "db-index-thread-safe"
+	r.Rule(rule, 1, "every table reader package simpledb opens uses an index kind whose lookups are free of writes (the default slice index, the skip list or the map index): no ReadIndexLoader option with the disk loader")
+	p := r.P
+	key := rule + "/simpledb"
+	bad := ""
+	var pos Site
+	n := 0
+	for _, fn := range p.FuncsOfPkg("simpledb") {
+		for _, s := range CallsIn(fn, Keys("sstables.ReadIndexLoader")) {
+			n++
+			pos = s
+			a := s.Call().Common().Args[0]
+			t := ""
+			if mi, ok := a.(*ssa.MakeInterface); ok {
+				t = typeShort(mi.X.Type())
+			}
+			tt := strings.TrimPrefix(t, "*")
+			switch {
+			case tt == "sstables.SliceKeyIndexLoader", tt == "sstables.SkipListIndexLoader", strings.HasPrefix(tt, "sstables.MapKeyIndexLoader"):
+			default:
+				if t == "" {
+					t = "a loader that is not known statically"
+				}
+				bad = fmt.Sprintf("%s configures its table readers with %s (%s)", FuncKey(fn), t, r.P.Pos(s.Pos()))
+			}
+		}
+	}
+	if bad != "" {
+		r.Bad(rule, key, pos.Pos(), bad+": concurrent Gets (shared lock) race on the disk index' offset cache — under load the process dies with \"concurrent map read and map write\"")
+	} else {
+		r.OK(rule, key, 0, fmt.Sprintf("%d index loader option(s) in simpledb, all of a write-free kind", n))
+	}
+}
